@@ -243,8 +243,11 @@ class PageCache(Entity):
         Returns the number of pages flushed.
         """
         flushed = 0
-        for page in self._pages.values():
-            if page.dirty:
+        # Iterate over a snapshot: other operations insert and evict pages
+        # during the write latencies.
+        for page_id in list(self._pages):
+            page = self._pages.get(page_id)
+            if page is not None and page.dirty:
                 yield self._disk_write_latency_s
                 page.dirty = False
                 self._dirty_writebacks += 1
